@@ -42,6 +42,8 @@ def concretise_c05(st, seed, iid):
     status = st["status"]
     if m >= n:
         mu = np.array([0.0 if s == "free" else (rng.uniform(0.5, 2.0) if s == "atL" else -rng.uniform(0.5, 2.0)) for s in status])
+        if st.get("special") == "start_on_active_face":
+            mu = mu * float(rng.choice([1.0, 10.0, 50.0]))      # the pull against the active bounds dominates the free variables' gradient
         # scale multipliers with the problem so that strict complementarity is not lost in the conditioning
         r = resid_for(rng, A, mu * float(np.linalg.norm(A, 2)) ** 2 * 0.2)
     else:
@@ -88,6 +90,18 @@ def concretise_c05(st, seed, iid):
                     x0[i] = hi[i] + rng.uniform(1e-9, 0.5) * min(1.0, hi[i] - lo[i])
     else:
         x0 = xs + rng.normal(size=n) * 2.0
+    if st.get("special") in ("start_on_active_face", "warm_start"):
+        warm = st["special"] == "warm_start"
+        for i, s in enumerate(status):
+            if s == "atL":
+                x0[i] = lo[i]
+            elif s == "atU":
+                x0[i] = hi[i]
+            elif warm:
+                x0[i] = xs[i] + float(rng.choice([-1.0, 1.0])) * float(rng.choice([1e-8, 1e-7, 2.5e-7, 1e-6]))
+            else:
+                sg = float(rng.choice([-1.0, 1.0]))
+                x0[i] = xs[i] + sg * rng.uniform(0.5, 0.75) * (hi[i] - xs[i] if sg > 0 else xs[i] - lo[i])
     npt = {"n+1": n + 1, "mid": n + 1 + max(1, n // 2), "2n+1": 2 * n + 1}[st["nptclass"]]
     if st.get("special") == "solution_on_init_grid":
         # the solution is the point the default initialisation evaluates along coordinate i: x0 + rhobeg*e_i, rhobeg = 0.1*max(|x0|_inf, 1)
@@ -235,6 +249,15 @@ def run_prop(prop, tier, nquick, nthorough, concretise, maxn):
             status = [str(rng.choice(["free", "atL", "atU"], p=[0.4, 0.3, 0.3])) for _ in range(n)]
             sel.append(dict(prop="C05", n=n, status=status, mclass=str(rng.choice(["square", "over"])), x0class=str(rng.choice(["interior", "onbound"])),
                             scaling=bool(rng.random() < 0.3), nptclass="n+1", cond=int(rng.choice([1, 10, 100, 1000])), reg="none", bounded=True, args=False, special="none"))
+        # the two face classes at dimensions 4..6 (few free variables, most bounds active)
+        for j in range(40 if tier == "quick" else 1200):
+            n = int(rng.integers(4, 7))
+            nfree = int(rng.integers(1, 3))
+            status = [str(rng.choice(["atL", "atU"])) for _ in range(n)]
+            for i in rng.choice(n, size=nfree, replace=False):
+                status[int(i)] = "free"
+            sel.append(dict(prop="C05", n=n, status=status, mclass=str(rng.choice(["square", "over"])), x0class="onbound", scaling=bool(rng.random() < 0.2), nptclass="n+1",
+                            cond=int(rng.choice([1, 10, 100])), reg="none", bounded=True, args=False, special=["start_on_active_face", "warm_start"][j % 2]))
     insts = [concretise(st, vlib.seed(), i + 1) for i, st in enumerate(sel)]
     for inst in insts:
         st = inst["pattern"]
